@@ -286,9 +286,10 @@ def do_op(m, case, pid, op, errs):
         elif kind == 'assign':
             setattr(m, pn, raw_of(case, pid, op[1]))
         elif kind == 'announce':
-            _, vidx, eidx, validate = op
+            _, vidx, eidx, validate = op[:4]
             value, validate = announce_arg(m.parameters[pn].datatype, case, pid, vidx, eidx, validate)
-            m.announceUpdate(pn, value, None if eidx is None else clone_error(errs[eidx % len(errs)]), validate=validate)
+            kw = {'timestamp': ts_value(op[4], T0)} if len(op) > 4 and op[4] is not None else {}
+            m.announceUpdate(pn, value, None if eidx is None else clone_error(errs[eidx % len(errs)]), validate=validate, **kw)
     except Exception:
         pass
 
@@ -338,7 +339,7 @@ def wire_op(ids, case, pid, op, errs):
         return ['write', ids.vid(pid, raw_of(case, pid, ridx)), checks_ok, wres]
     if kind == 'assign':
         return ['assign', ids.vid(pid, raw_of(case, pid, op[1]))]
-    _, vidx, eidx, validate = op
+    _, vidx, eidx, validate = op[:4]
     value, validate = announce_arg(ids.dts[pid], case, pid, vidx, eidx, validate)
     return ['announce', None if vidx is None else ids.vid(pid, value),
             None if eidx is None else ids.eid(errs[eidx % len(errs)]), bool(validate)]
@@ -603,7 +604,9 @@ def impl_conc(case, errs, tables, policy):
         pairs, ex, bad_law = eq_pairs(ids)
         req = {'p': 'C05', 'k': 'conc', 'eq': pairs, 'conv': conv, 'valid': valid, 'entries': entries,
                'conns': visit_order, 'tick': case['tick'], 'clock': clock0,
-               'progs': [[{'p': pid, 'op': wire_op(ids, case, pid, op, errs)} for pid, op in prog] for prog in case['progs']],
+               'progs': [[{'p': pid, 'op': wire_op(ids, case, pid, op, errs),
+                          'ts': ts_wire(op[4], T0) if op[0] == 'announce' and len(op) > 4 else None}
+                         for pid, op in prog] for prog in case['progs']],
                'labels': labels}
         obs = {'init_x': init_x, 'logs_x': logs_x, 'logs_t': logs_t, 'final': final, 'ex': ex, 'bad_law': bad_law,
                'sched': out, 'unknown': unknown, 'visit_order': visit_order, 'choices': [c[1] for c in s.choices]}
@@ -651,7 +654,10 @@ def gen_conc(rng, big):
         for _ in range(rng.randint(1, 3 if not big else 4)):
             pid = rng.randrange(npar)
             nvalid, nall = pool_size(params[pid]['kind'])
-            prog.append([pid, gen_op(rng, params[pid], min(nvalid, 3), nall, nerr)])
+            op = gen_op(rng, params[pid], min(nvalid, 3), nall, nerr)
+            if op[0] == 'announce' and rng.random() < 0.5:
+                op.append(rng.choice(TS_ARGS))
+            prog.append([pid, op])
         progs.append(prog)
     return {'params': params, 'mw': rng.choice(MW), 'gw': rng.choice(GW), 'nconn': rng.choice([1, 2, 2, 3]),
             'tick': rng.choice([0, 1, 1, 3, 40]), 'progs': progs}
